@@ -124,6 +124,8 @@ def render_s(I, v):
     ctx = I.ctx
     if isinstance(v, str):
         return z3.StringVal(v)
+    if v is None or isinstance(v, (bool, int)):
+        return z3.StringVal(str(v))       # a concrete int / bool / None: its exact text
     sv = ctx.to_val(v)
     if isinstance(sv.ty, TStr):
         return Z.Val.s(sv.t)
@@ -525,6 +527,9 @@ def call_builtin(I, fn, args, kwargs):
     name = fn.name
     h = _BUILTINS.get(name)
     if h is None:
+        h2 = I.E.externals.get("builtins." + name)      # an assumed contract supplied by a sidecar
+        if h2 is not None:
+            return h2(I, args, kwargs)
         raise Unsupported("builtin %s" % name)
     return h(I, args, kwargs)
 
@@ -674,6 +679,9 @@ def _isinstance1(I, v, c):
                     r = h(I, v, c)
                     if r is not NotImplemented:
                         return r
+                if isinstance(v.ty, TAny):
+                    # an arbitrary value: whether it is a dict / list / ... is an unknown fact about it (both outcomes are explored)
+                    return z3.And(Z.is_refv(v.t), Z.is_container(v.t, z3.StringVal(n)))
                 raise Unsupported("isinstance(%r, %s)" % (v, n))
         table = {"int": (int,), "float": (float,), "str": (str,), "bool": (bool,), "dict": (VDict,), "list": (VList,), "tuple": (VTuple,), "set": (VSet,), "frozenset": (), "object": (object,)}
         if n in table:
